@@ -1,10 +1,12 @@
 /- C11 driver: op lines in, observable lines out (same format as props/C11/harness.cpp).
    `c11` runs the model of the repaired module.cpp, `c11 orig` the model of the code before
-   patches/C11-01 (used only to validate the tie against an unpatched tree). -/
+   patches/C11-01 (used only to validate the tie against an unpatched tree); `nofx` = run_in_backend.cpp
+   before patches/C11-06 (the default is the repaired file, in /repo since 6f7372e). -/
 import TboxModel.Util
 import TboxModel.C11.Model
 import TboxModel.C11.Arena
 import TboxModel.C11.Vars
+import TboxModel.C11.Backend
 open Tbox.Util Tbox.C11
 
 def evStr : Ev → String
@@ -79,7 +81,7 @@ def stepOp (rb : Bool) (f : Forest) (ws : List String) : Option (Forest × List 
         pure (f', ["B main-" ++ (match mainCalls rb a b t with
                       | [] => "ctx-init-fail" | [_] => (if (initM rb t).2.1 then "ctx-start-fail" else "apps-init-fail")
                       | [_, _] => "apps-start-fail" | _ => "run"),
-                   line true tr f'])
+                   line true tr f', "M after-main blocked=0 term=dfl errsig=0"])
   | [op, n] => do
       let n ← id? n
       let t ← f.root? n
@@ -267,8 +269,73 @@ structure DState where
   a : AState := {}
   scripted : Bool := false
   v : Vars.VStore := {}
+  b : Option Backend.Rt := none          -- `_runtime` of run_in_backend.cpp
+  dead : Bool := false                   -- the process died in an earlier Start()/Stop()
+  sig : Option (Nat × Nat) := none       -- `raise <hook> <id>`: stop signal raised from inside that hook during Main()
 
-def stepLine (rb g : Bool) (st0 : DState) (ln : String) : DState × List String :=
+
+/-! ### run_in_backend.cpp (`bstart` / `bstop`) and a stop signal during Main() (`raise`) -/
+
+def filt (n : Nat) (tr : List Ev) : List Ev := tr.filter fun e => e.id != n
+
+def hookNo? : String → Option Nat
+  | "i" => some 0 | "s" => some 1 | "t" => some 2 | "c" => some 3 | _ => none
+
+/-- the Apps root of a scenario: a base `Module("")` (unnamed, its own hooks are the empty base hooks) -/
+def appsRoot? (f : Forest) (n : Nat) : Option Mod := do
+  let t ← f.root? n
+  if t.info.named || !t.info.initOk || !t.info.startOk then none else some t
+
+def bLine (o : Backend.Out) (n : Nat) (rt : Option Backend.Rt) : List String :=
+  if o.crash then ["P bcrash"]
+  else ["P bret=" ++ (if o.ret then "1" else "0") ++ " tr=" ++ trStr (filt n o.tr), "M runtime=" ++ (if rt.isSome then "1" else "0")]
+
+def stepProc (fx rb : Bool) (st : DState) (ws : List String) : Option (DState × List String) :=
+  match ws with
+  | ["bstart", a, p, ci, cs, n] => do
+      let a ← bool? a; let p ← bool? p; let ci ← bool? ci; let cs ← bool? cs; let n ← id? n
+      let t ← appsRoot? st.f n
+      if st.dead then pure (st, ["P dead"])
+      else
+        let i : Backend.StartIn := ⟨t, a, p, ci, cs⟩
+        let r := Backend.startB fx rb st.b i
+        let tag := if st.b.isSome then "again" else if !a then "args-fail" else if !p then "pid-fail"
+          else match Backend.startCalls rb i with
+            | [] => "ctx-init-fail" | [_] => (if (initM rb t).2.1 then "ctx-start-fail" else "apps-init-fail")
+            | _ => (if r.2.ret then "run" else "apps-start-fail")
+        pure ({ st with b := r.1, dead := r.2.crash }, ["B bstart-" ++ tag] ++ bLine r.2 n r.1)
+  | ["bstop", n] => do
+      let n ← id? n
+      let _ ← appsRoot? st.f n
+      if st.dead then pure (st, ["P dead"])
+      else
+        let r := Backend.stopB st.b
+        pure ({ st with b := r.1, dead := r.2.crash },
+              ["B bstop-" ++ (if st.b.isNone then "noop" else if r.2.crash then "crash" else "run")] ++ bLine r.2 n r.1)
+  | ["arg", _] => pure (st, ["P arg"])       -- configuration of the context: no effect on the hooks
+  | ["raise", h, k] => do
+      let h ← hookNo? h; let k ← id? k
+      if (st.f.find k).isNone then none
+      else pure ({ st with sig := some (h, k) }, ["P raise"])
+  | ["main", a, b, n] => do
+      let (h, k) ← st.sig
+      let a ← bool? a; let b ← bool? b; let n ← id? n
+      let t ← appsRoot? st.f n
+      if k == n then none
+      else
+        let full := mainTrace rb a b t
+        let idx := Backend.hookIdx h k full
+        let r := Backend.mainSig rb a b t idx
+        let phase := if idx ≥ full.length then "sig-none"
+          else match Backend.upLen rb a b t with
+            | some u => if idx < u then "sig-startup" else "sig-shutdown"
+            | none => "sig-failpath"
+        pure ({ st with f := st.f.filter fun x => x.id != n, sig := none },
+              ["B main-" ++ phase, "P ret=" ++ (if r.2 then "K" else "1") ++ " tr=" ++ trStr (filt n r.1) ++ " st=-"] ++
+                (if r.2 then [] else ["M after-main blocked=0 term=dfl errsig=0"]))
+  | _ => none
+
+def stepLine (fx rb g : Bool) (st0 : DState) (ln : String) : DState × List String :=
   let ws := words ln
   -- a new module starts with an empty vars() object
   let st : DState := match ws with
@@ -279,7 +346,12 @@ def stepLine (rb g : Bool) (st0 : DState) (ln : String) : DState × List String 
   | "case" :: _ => ({}, [ln.trimAscii.toString])
   | ["quiet"] => ({ st with quiet := true }, ["P quiet"])
   | _ =>
-    if !st.quiet && (ws.head?.map (·.startsWith "v")) == some true then
+    if ws.head? == some "bstart" || ws.head? == some "bstop" || ws.head? == some "raise" || ws.head? == some "arg" ||
+        (ws.head? == some "main" && st.sig.isSome) then
+      match stepProc fx rb st ws with
+      | none => (st, ["bad-op"])
+      | some r => r
+    else if !st.quiet && (ws.head?.map (·.startsWith "v")) == some true then
       match VOps.step st.a st.v ws with
       | none => (st, ["bad-op"])
       | some (v', ls) => ({ st with v := v' }, ["B vars"] ++ ls)
@@ -311,4 +383,4 @@ def stepLine (rb g : Bool) (st0 : DState) (ln : String) : DState × List String 
              (if tl == al then [] else ["M MODEL-MISMATCH tree=" ++ " | ".intercalate tl ++ " arena=" ++ " | ".intercalate al]) ++ r.2)
 
 def main (args : List String) : IO Unit :=
-  runDriver ({} : DState) (stepLine (!(args.contains "orig")) (!(args.contains "noguard")))
+  runDriver ({} : DState) (stepLine (!(args.contains "nofx")) (!(args.contains "orig")) (!(args.contains "noguard")))
